@@ -34,4 +34,53 @@ CHECKS = {
             "runs whose plan contains deadlines or cancellations tolerate connection-level errors on other calls; plans without them do not",
         ],
     },
+    "C12": {
+        "level": "exploration",
+        "rule": ("one run = one seeded plan of VTAG requests whose replies are value trees of every RESP2/RESP3 type (nulls, booleans, doubles, big "
+                 "numbers, verbatim and streamed strings, blob errors, attributes, arrays/sets/maps/streamed aggregates to depth 6, binary payloads "
+                 "with CR/LF up to 70 kB) delivered under a seeded schedule in which (almost) every delivery is a partial cut, in a quarter of the "
+                 "runs 1-3 bytes at a time, into read buffers of 32..4096 bytes; replies are compared structurally with the generated tree, and "
+                 "DoStream output with the payload a normal read returns; non-trivial = at least one reply was split across reads; "
+                 "distinct = distinct event-log hash"),
+        "parts": [
+            {"module": "rueidis", "scenario": "resp-split", "quick": 6000, "thorough": 400000},
+        ],
+        "expected_probes": ["reply-split-across-reads", "streaming-read"],
+        "components": {"real": REAL, "stubs": STUBS},
+        "assumptions": [
+            "claimed for read-boundary independence (the transport nondeterminism in the property); the 'all value trees' quantifier is sampled input generation",
+            "the model's RESP encoder (verifsim/resp) is correct; it shares no code with rueidis",
+        ],
+    },
+    "C14": {
+        "level": "exploration",
+        "rule": ("one run = one seeded plan of 1-6 pipelining tasks sending VARGS commands with 0..1001 arguments whose lengths sit on every decimal "
+                 "digit-count boundary from 0 to 1000001 and whose bytes include CR, LF and NUL, through write buffers of 32 bytes..default and "
+                 "(half the runs) a bounded socket send buffer, with client-to-server hand-over cut at arbitrary offsets; the model's independent "
+                 "parser must decode exactly the argv each task built, once; every other netsim scenario contributes the 'malformed frame' invariant; "
+                 "non-trivial = two calls overlapped; distinct = distinct event-log hash"),
+        "parts": [
+            {"module": "rueidis", "scenario": "cmd-framing", "quick": 5000, "thorough": 300000},
+            {"module": "rueidis", "scenario": "pipe-mix", "quick": 4000, "thorough": 100000},
+        ],
+        "expected_probes": ["arg-len>=1000", "argc>=100", "frames-cut-on-the-wire"],
+        "components": {"real": REAL, "stubs": STUBS},
+        "assumptions": ["the model's command parser (verifsim/resp.ParseCommand) is strict and correct"],
+    },
+    "C33": {
+        "level": "exploration",
+        "rule": ("same plans as C14 (cmd-framing) with deadlines and cancellations on a third of the calls, tiny write buffers and a bounded socket "
+                 "send buffer so that commands are still queued or half written when their caller abandons the call and immediately builds new "
+                 "commands from the recycled pool; every frame the model decodes must be exactly an argv some task built; "
+                 "non-trivial = two calls overlapped; distinct = distinct event-log hash"),
+        "parts": [
+            {"module": "rueidis", "scenario": "cmd-framing", "quick": 6000, "thorough": 300000},
+        ],
+        "expected_probes": ["call-abandoned-before-reply", "cancel-during-call"],
+        "components": {"real": REAL, "stubs": STUBS},
+        "assumptions": [
+            "claimed for the schedule-dependent clause only (a command is never modified or recycled before it is completely written, even when the caller abandons the call); "
+            "the formatting clause (base-10 integers, shortest floats, units) is a pure function of the input and is not decided here",
+        ],
+    },
 }
